@@ -501,6 +501,9 @@ func defaultsAndPlaceholders(res *vkit.Result, c comp, rng *rand.Rand, propFile 
 			case 0:
 				envSeq++
 				name := fmt.Sprintf("VERIF_C17_%d", envSeq)
+				if envSeq%3 == 0 {
+					name = fmt.Sprintf("VERIF_C17(x86)+%d", envSeq) // what a variable name may hold besides letters
+				}
 				os.Setenv(name, f.Text)
 				val = []string{"${env:" + name + "}", "${ENV:" + name + "}", "${" + name + "}", "${ env : " + name + " }"}[rng.Intn(4)]
 				how = "env"
@@ -1284,7 +1287,8 @@ func main() {
 	vkit.Fs()
 	res := vkit.NewResult("corpus of valid configs touching every registered gun, provider, aggregator, sink/source, schedule (incl. list → composite) and middleware; unknown key and one-letter misspelling at every map path (exhaustive over paths); per-component field tables: wrong types, documented-constraint violations, unresolvable/uncastable placeholders (exhaustive over the tables); random subsets of fields given as literals / ${env:…} / ${property:file#key} compared with the registered default overlaid by the subset, on the config the constructed component really holds; schedules compared by token count; discard_overflow and unknown keys through the real binary. distinct = distinct (component, keys, values); non-trivial = at least one key set or inserted")
 	rng := vkit.Rand("c17")
-	aux, err := os.MkdirTemp(vkit.TmpDir(), "c17aux")
+	// the property file lives under a directory whose name is made of what file names may hold
+	aux, err := os.MkdirTemp(vkit.TmpDir(), "c17aux+user@host (x86)~")
 	if err != nil {
 		res.Inconclusive(true, "tmp: %v", err)
 		res.Write()
